@@ -15,9 +15,9 @@ def DState.ty? (d : DState) (s : String) : Option Ty := do
 /-- reader token: buf | ped | stream | fd | b:<limit>:<inner> -/
 partial def mkSrc (tok : String) (bytes : Bytes) (handles : List Int) : Option Src :=
   match tok.splitOn ":" with
-  | ["buf"] | ["ped"] => some { bytes, handles }
+  | ["buf"] | ["ped"] | ["ptr"] | ["uptr"] => some { bytes, handles }
   | ["stream"] => some { bytes, handles, eof := .streamError, ensureChecks := false }
-  | ["fd"] => some { bytes, handles, eof := .readLimitReached, ensureChecks := false }
+  | ["fd"] | ["fdpipe"] => some { bytes, handles, eof := .readLimitReached, ensureChecks := false }
   | "b" :: lim :: rest => do
     let n ← lim.toNat?
     let s ← mkSrc (":".intercalate rest) bytes handles
